@@ -121,6 +121,7 @@ func startNode(dir string, ki, thr int, logPath string) (*nodeProc, error) {
 	}
 	cmd := exec.Command(exe, "-role", "raftnode", dir, fmt.Sprint(ki), fmt.Sprint(thr))
 	cmd.SysProcAttr = &syscall.SysProcAttr{Pdeathsig: syscall.SIGKILL}
+	cmd.Env = append(os.Environ(), "GOLOG_LOG_LEVEL=error,raft=info,raftlib=info,cluster=info")
 	lf, _ := os.OpenFile(logPath, os.O_CREATE|os.O_WRONLY|os.O_APPEND, 0o644)
 	cmd.Stderr = lf
 	in, err := cmd.StdinPipe()
@@ -200,7 +201,12 @@ func killCase(c *fw.Ctx, r *fw.Rand, idx int) {
 	dir := filepath.Join(c.Dir, fmt.Sprintf("kill%d", idx))
 	os.RemoveAll(dir)
 	os.MkdirAll(dir, 0o755)
-	defer os.RemoveAll(dir)
+	keep := false
+	defer func() {
+		if !keep {
+			os.RemoveAll(dir)
+		}
+	}()
 	logPath := filepath.Join(c.Dir, fmt.Sprintf("kill%d.log", idx))
 	os.Remove(logPath)
 	// Ed25519 pool keys only: secp256k1 generation is not reproducible across processes
@@ -212,12 +218,11 @@ func killCase(c *fw.Ctx, r *fw.Rand, idx int) {
 	var trace []string
 	seq := 0
 	rounds := r.Range(3, 5)
-	check := func(np *nodeProc, round int) bool {
+	list := func(np *nodeProc) (map[string]string, bool) {
 		io.WriteString(np.in, "list\n")
 		l, ok := np.line("state", 20*time.Second)
 		if !ok {
-			c.Inconclusive("no listing from the node")
-			return false
+			return nil, false
 		}
 		got := map[string]string{}
 		for _, kv := range strings.Fields(l)[1:] {
@@ -225,6 +230,45 @@ func killCase(c *fw.Ctx, r *fw.Rand, idx int) {
 			if len(p) == 2 {
 				got[p[0]] = p[1]
 			}
+		}
+		return got, true
+	}
+	explained := func(got map[string]string) bool {
+		for ci := 0; ci < ncids; ci++ {
+			g := got[gen.UCid(ci).String()]
+			if !(g == acked[ci] || (inflight[ci] != nil && g == *inflight[ci])) {
+				return false
+			}
+		}
+		return true
+	}
+	check := func(np *nodeProc, round int) bool {
+		// "caught up" is bounded progress, as everywhere in C01: the restarted
+		// peer replays its log after it reports ready (the FSM applies queued
+		// entries in the background); the listing must reach an explained
+		// value within 30 s and is judged then
+		var got map[string]string
+		deadline := time.Now().Add(30 * time.Second)
+		for {
+			g, ok := list(np)
+			if !ok {
+				c.Inconclusive("no listing from the node")
+				return false
+			}
+			got = g
+			if time.Now().After(deadline) {
+				break
+			}
+			if explained(got) {
+				// stable? (the replay may pass through an explained value)
+				time.Sleep(300 * time.Millisecond)
+				g2, ok2 := list(np)
+				if ok2 && fmt.Sprint(g2) == fmt.Sprint(got) {
+					break
+				}
+				continue
+			}
+			time.Sleep(100 * time.Millisecond)
 		}
 		for ci := 0; ci < ncids; ci++ {
 			g := got[gen.UCid(ci).String()]
@@ -239,6 +283,7 @@ func killCase(c *fw.Ctx, r *fw.Rand, idx int) {
 				if len(tr) > 40 {
 					tr = tr[len(tr)-40:]
 				}
+				keep = true
 				c.Violation("C01/kill/acknowledged-write-lost-or-unknown-value", fmt.Sprintf("after SIGKILL and restart (round %d) c%d holds %q, expected %s", round, ci, g, want), tr)
 			}
 			// what is there now is the base for the next round
